@@ -10,9 +10,40 @@ import gens_b09 as G
 from common import hexs, rng, run_driver
 
 
+GUARD_SECONDS = 25
+
+
+def _guarded(text):
+    """inputs built to be long (size probes): converted in a child process under a wall-clock limit, because a
+    regular-expression blow-up inside `re` cannot be interrupted from within the interpreter"""
+    import re
+    return len(text) > 1500 or re.search(r"\d{20}", text) is not None or re.search(r"[A-Z]{30}", text) is not None
+
+
+def _convert_guarded(text, o):
+    import json
+    import os
+    import subprocess
+    from common import PY, REPO
+    here = os.path.dirname(os.path.abspath(__file__))
+    code = ("import sys, json; sys.path.insert(0, %r); import impl_b09; j = json.load(sys.stdin); "
+            "sys.stdout.write(impl_b09.convert(j['text'], j['o']))" % here)
+    try:
+        r = subprocess.run([PY, "-c", code], input=json.dumps({"text": text, "o": o}), capture_output=True, text=True,
+                           timeout=GUARD_SECONDS, env=dict(os.environ, PYTHONPATH=REPO))
+        out = r.stdout.strip().split("\n")[-1] if r.stdout.strip() else "internal ChildProcessError"
+        return out
+    except subprocess.TimeoutExpired:
+        return f"internal Timeout (no answer within {GUARD_SECONDS} s: the conversion hangs)"
+
+
 def _work(item):
     import impl_b09
     text, o = item
+    if _guarded(text):
+        impl = _convert_guarded(text, o)
+        if impl.startswith("internal Timeout"):
+            return None, impl, {}
     sx = impl_b09.sexp(text)
     impl = impl_b09.convert(text, o)
     req = impl_b09.convast_request(sx, o) if sx is not None else None
@@ -60,7 +91,51 @@ def programs(tier):
             progs.append(("data-alias-probe", f"10 DATA {l},,{l}\n20 READ P,Q,R\n30 " + t.replace("#", l)))
     progs.append(("data-alias-probe", "10 DATA 1,,3\n20 READ A,B,C\n30 SET(1,2,3)\n40 SOUND 1,3"))
     progs.append(("data-alias-probe", "10 SOUND 1,3:SET(1,2,3)\n20 READ A,B,C\n30 DATA 1,,3"))
+    # keyword pairs and statements spelled without any blank (as a detokenised listing prints them)
+    for p in DENSE_PROBES:
+        progs.append(("dense-probe", p))
+    # size probes: long literals, names, lines, chains (a conversion must answer; see `_guarded`)
+    for p in SIZE_PROBES:
+        progs.append(("size-probe", p))
+    # lines without statements (as jump targets and in between), programs whose only variables are temporaries
+    for p in EMPTY_LINE_PROBES:
+        progs.append(("empty-line-probe", p))
+    # CHR$ of every printable code and the neighbours (34 is the quote), in the contexts where a literal could stand
+    for n in ([34, 32, 33, 35, 39, 40, 41, 42, 58, 65, 92, 126, 127, 13, 10, 0, 191, 255] if quick else list(range(0, 256))):
+        progs.append(("chr-probe", f"10 A$=CHR$({n}):PRINT CHR$({n});\"X\";CHR$({n})\n20 IF A$=CHR$({n}) THEN B$=CHR$({n})+\"HI\""))
+    # characters that only some line splitters treat as line ends, inside literals, comments and DATA items
+    for ch in ["\x0b", "\x0c", "\x1c", "\x1d", "\x1e", "\x85", "\u2028", "\u2029", "\t", "\x7f"]:
+        for sh in ("10 A$=\"AB{c}CD\":PRINT A$", "10 PRINT \"X{c}PROCEDURE zz{c}\":A$=STR$(1):B$=HEX$(2)\n20 PRINT A$;B$",
+                   "10 DATA \"A{c}B\",C{c}D\n20 READ A$,B$", "10 REM A{c}RUN ecb_hex{c}B\n20 CLS"):
+            progs.append(("control-char-probe", sh.replace("{c}", ch)))
     return progs
+
+
+DENSE_PROBES = [
+    "10 PALETTERGB", "10 PALETTECMP", "10 RGB:CMP", "10 ONERRGOTO100\n100 END", "10 ONBRKGOTO100\n100 END", "10 FORI=1TO3:NEXTI",
+    "10 IFA=1THENPRINT\"X\"ELSEPRINT\"Y\"", "10 GOSUB100:END\n100 RETURN", "10 LINEINPUTA$", "10 LINEINPUT\"P\";A$", "10 INPUT\"P\";A,B$",
+    "10 HCOLOR1,2:HSCREEN2:HCLS1", "10 PRINT@1,\"X\"", "10 POKE1,2:SOUND1,2:CLS1", "10 A$=INKEY$:B=JOYSTK(0)", "10 PALETTE1,2",
+    "10 HBUFF1,2:HGET(1,2)-(3,4),1:HPUT(1,2)-(3,4),1,PSET", "10 DIMA(3):DATA1,2:READA,B:RESTORE", "10 ATTR1,2,B,U", "10 HPRINT(1,2),\"X\"",
+    "10 PLAY\"C\":WIDTH40:LOCATE1,2", "10 HLINE(1,2)-(3,4),PSET,BF:HLINE-(5,6),PRESET", "10 HCIRCLE(1,2),3,4,5,6,7", "10 HPAINT(1,2),3,4",
+    "10 HSET(1,2,3):HRESET(1,2):SET(1,2,3):RESET(1,2)", "10 HDRAW\"U1\"", "10 IFA THEN10ELSE10", "10 ONA+1GOTO10,10", "10 FORI=1TO9STEP2:NEXT",
+    "10 A=BUTTON(0):B=POINT(1,2):C=HPOINT(1,2)", "10 IFA=1THEN10ELSEIFA=2THENB=1ELSEB=2", "10 A=NOTB ANDC ORD", "10 PRINTTAB(3);1",
+]
+_D40 = "1234567890" * 4
+SIZE_PROBES = [
+    f"10 A={_D40}", f"10 A={_D40[:24]}", f"10 A={_D40}{_D40}", f"10 DATA {_D40},2\n20 READ A,B", f"10 PRINT {_D40};{_D40[:30]}",
+    f"10 A=1.{_D40}", f"10 A={_D40}.5E+{_D40[:25]}", "10 DIM A(" + "0" * 20 + "10)", f"10 POKE {_D40[:21]},1", f"10 A=&H{'F' * 40}",
+    f"10 {'ABCDEFGHIJ' * 4}=1", f"10 {'ABCDEFGHIJ' * 4}$=\"X\"", "10 A$=\"" + "X" * 2000 + "\"", "10 REM " + "R" * 2000,
+    "10 A=" + "+".join(["1"] * 400), "10 A=" + "(" * 20 + "1" + ")" * 20, "10 " + ":".join(["A=1"] * 300),
+    "10 A" + " " * 1600 + "=" + " " * 400 + "1", "10 PRINT " + ";".join(["\"X\""] * 300), "10 DATA " + ",".join(["1"] * 500),
+    "10 IF A=1 THEN " + " ELSE IF A=2 THEN ".join(["B=1"] * 30), "\n".join(f"{10 * k} A=A+1" for k in range(1, 250)),
+    f"{_D40} END", f"10 GOTO {_D40[:25]}", "10 A$=" + "+".join(["CHR$(65)"] * 120), "10 A=" + "-".join(["INT(B)"] * 60),
+]
+EMPTY_LINE_PROBES = [
+    "10 GOTO 100\n100", "10 GOTO 100\n100 ", "10 GOSUB 100:END\n100 :\n110 RETURN", "10 GOTO 30\n20\n30 END", "10 GOTO 30\n20 :\n30 END",
+    "10 ON ERR GOTO 100\n20 PRINT 1/0\n100\n110 END", "10 ON BRK GOTO 50\n50\n60 END", "10 IF A=1 THEN 40 ELSE 50\n40\n50",
+    "10 ON A GOTO 20,30\n20\n30 :", "10 PRINT 1", "10 PRINT INT(2.5)", "10 PRINT STR$(1)+HEX$(2)", "10 CLS", "10", "10 :", "10\n20\n30",
+    "0\n10 GOTO 0", "10 FOR I=1 TO 2\n20\n30 NEXT", "10 REM\n20 '\n30 GOTO 10",
+]
 
 
 EXTREME_LITERALS = ["1E999", "-1E400", "1E-999", "99999999999999999999", "65497.5", "&HFFFF"]
@@ -128,6 +203,11 @@ def cases(tier):
                            + hexs(",".join(f"{k}={v}" for k, v in o["sizes"]).encode()) + " " + hexs(text.encode())})
 
     for kind, text in programs(tier):
+        if kind in ("empty-line-probe", "control-char-probe"):
+            # bundled and not, filtered and not, pre-initialised and not
+            for flags in ("1101110", "1100010", "1101010", "0100100", "1111011"):
+                add(kind, text, {"flags": flags, "storage": 32, "procname": "prog", "sizes": []})
+            continue
         nopt = 3 if kind in ("example",) else 1
         for o in G.option_sets(r, nopt):
             add(kind, text, o)
